@@ -7,11 +7,13 @@ from typing import Optional
 import fiddle as fdl
 
 from fvlib import sigs
+from fvlib import stubs
 from fvlib.notes import note
 from fvlib.refargs import RefArgs, Reject, UNSET
 from fvrun.spec import Cube, Obligation
 
 PROPERTY = 'C03'
+stubs.stub_buildable_repr()   # Fiddle's AttributeError messages embed {self!r}; see fvlib/stubs.py
 EXPLANATION = (
     'bounded symbolic execution of the real Buildable.__getattr__/__setattr__/__delattr__/'
     '__getitem__/__setitem__/__delitem__/ordered_arguments/__dir__ (CrossHair + z3) in lock-step with '
@@ -19,6 +21,7 @@ EXPLANATION = (
     'solver-enumerated, indices / slice bounds range over [-8, 8] / None, steps over +-1..3 / None, '
     'assigned values are unbounded symbolic ints; all observations compared after every operation')
 ASSUMPTIONS = [
+    'stub: Buildable.__repr__ returns a constant (it is only reached through error-message formatting here)',
     'reference semantics of DESIGN.md Appendix A (list semantics for the variadic tail, fixed-length prefix)',
     'invalid edits must raise some Exception and leave all observations unchanged; the exception class is not constrained',
     'signatures limited to <=2 positional-only + <=2 positional-or-keyword + *args + 1 keyword-only + **kw',
@@ -403,7 +406,8 @@ def _op_cube(i, k, n, width):
         est *= 2
       else:
         est *= 4
-  fix[f'v{i}'] = 70 + 5 * i
+  if k in (SET_NAME, SET_IDX, SET_SL):
+    del fix[f'v{i}']      # assigned values: unbounded symbolic ints
   return fix, pre, est
 
 
@@ -426,11 +430,6 @@ def _cubes(nops, sig_list, init_names, kinds_per_op, widths):
         total += est
         tag = f's{s}_{w}_' + '_'.join(OPNAMES[k] for k in ks)
         cubes.append(Cube(tag, pre, dict(fix, er=True), est))
-        if ks[-1] in (SET_NAME, SET_IDX, SET_SL):
-          # the same cube with the last assigned value an unbounded symbolic int
-          symfix = dict(fix, er=False)
-          del symfix[f'v{len(ks) - 1}']
-          cubes.append(Cube(tag + '_sym', pre, symfix, est))
   return cubes, total
 
 
